@@ -218,6 +218,16 @@ def call(objs, st, tmp):
         # an explicit in-place edit of the receiver (its VAR-LIST goes stale)
         del f.variables[a['name']]
         return None
+    if act == 'addvar':
+        # an explicit in-place edit through the wrapper's own createVariable:
+        # NVARS / VAR-LIST follow, the time flags keep their old width until
+        # the next operation
+        dims = [d for d in ('TSTEP', 'LAY', 'ROW', 'COL') if d in f.dimensions]
+        if len(dims) != 4:
+            dims = [d for d in ('TSTEP', 'LAY', 'PERIM') if d in f.dimensions]
+        v = f.createVariable(a['name'], 'f', tuple(dims), units='ppmV')
+        v[...] = 7
+        return None
     if act == 'copy' and a.get('nodata'):
         # a template of the file: structure and metadata without the values
         return f.copy(data=False)
@@ -379,6 +389,22 @@ def tstep_windows():
                     'args': {'nodata': True}}, w3,
                 {'act': 'copy', 'src': 3, 'others': [], 'args': {}}][
                     :1 if (lo, hi) != (1, n) else 4]})
+    # a variable added through the wrapper's createVariable (TFLAG lags
+    # behind NVARS), then operations without an updatemeta() in between
+    for t in ('I1', 'I4', 'I2', 'I8'):
+        n = nts.get(t, 2)
+        add = {'act': 'addvar', 'src': 1, 'others': [],
+               'args': {'name': 'ADDED'}}
+        w = {'act': 'slice', 'src': 1, 'others': [], 'args': {
+            'sels': [{'d': 'TSTEP', 's': sl(1, n, None)}],
+            'newdim': 'POINTS'}}
+        progs.append({'templates': [t, t], 'steps': [
+            add, w, {'act': 'copy', 'src': 1, 'others': [], 'args': {}},
+            {'act': 'subset', 'src': 1, 'others': [],
+             'args': {'keys': ['ADDED'], 'exclude': False}},
+            {'act': 'slice', 'src': 1, 'others': [], 'args': {
+                'sels': [{'d': 'TSTEP', 's': {'k': 'int', 'v': -1}}],
+                'newdim': 'POINTS'}}]})
     return progs
 
 
